@@ -584,6 +584,30 @@ func c12Stream(o *Out, rng *rand.Rand, n int) {
 			}
 		}
 	}
+	// LONG chains (dozens of hooks): the rejecting one first, in the middle, last; none
+	for via := 0; via < 3; via++ {
+		for _, pos := range []int{-1, 0, 20, 39} {
+			var pre []hkSpec
+			for i := 0; i < 40; i++ {
+				switch {
+				case i == pos:
+					pre = append(pre, hkSpec{K: "rejc", Msg: "go away", NilCtx: i%2 == 0})
+				case i%7 == 3:
+					pre = append(pre, hkSpec{K: "bump", D: int64(i)})
+				case i%11 == 5:
+					pre = append(pre, hkSpec{K: "tag", D: int64(i % 5)})
+				default:
+					pre = append(pre, hkSpec{K: "accept"})
+				}
+			}
+			var post []hkSpec
+			for i := 0; i < 30; i++ {
+				post = append(post, hkSpec{K: "accept"})
+			}
+			c12RunV(o, "long-chain", via, false, pre, post, 1800, false, 2, 1)
+			c12Run(o, "long-chain", via, true, pre, post, 1800)
+		}
+	}
 	// many post-response runs outstanding at once
 	for via := 1; via < 3; via++ {
 		for _, k := range []int{3, 1500 + rng.Intn(700)} {
